@@ -394,8 +394,14 @@ func c01exec(c *vt.Ctx, r c01run) {
 		if r.push > 0 {
 			rig.Settle()
 		}
-		for _, m := range msgs {
-			rig.Send(m.wire())
+		for i, m := range msgs {
+			// JSON whitespace around a record is part of the record: a third of the
+			// scripts wrap every message in some (space, tab, CR, LF before; CR LF after)
+			w := m.wire()
+			if h := vt.Hash64(c01sig(r.shapes)); h%3 == 0 {
+				w = []string{" ", "\r\n", "\t\r", "\n \r"}[(h/3+uint64(i))%4] + w + []string{"", "\r\n"}[(h/12)%2]
+			}
+			rig.Send(w)
 		}
 		rig.Settle()
 		c01check(c, rig, msgs, false, "after arrival")
